@@ -613,18 +613,24 @@ class DataProviderLinked(DataProvider):
             tuple(
                 "".join(sub_arr.to_numpy().flatten())
                 for _, sub_arr in aligned_groups.groupby("global", squeeze=False)
-            )
+            ),
+            dtype=object,
         )
 
         group_definitions: dict[str, list[str]] = {}
         for i, group_label in enumerate(aligned_group_labels):
-            if group_label not in group_definitions:
-                group_definitions[group_label] = list(
-                    filter(
-                        lambda label: label != "",
-                        aligned_groups.isel({"global": i}).data,
-                    )
+            dataset_labels = list(
+                filter(
+                    lambda label: label != "",
+                    aligned_groups.isel({"global": i}).data,
                 )
+            )
+            # different sets of datasets can have the same concatenated labels
+            # (e.g. "ab" + "c" and "a" + "bc"), they still need distinct group labels
+            while group_definitions.get(group_label, dataset_labels) != dataset_labels:
+                group_label += "'"
+            aligned_group_labels[i] = group_label
+            group_definitions[group_label] = dataset_labels
         return aligned_group_labels, group_definitions
 
     def align_weights(self, aligned_global_axes: dict[str, ArrayLike]) -> list[ArrayLike | None]:
